@@ -464,7 +464,7 @@ pub fn run(rep: &mut Report, tier: &str, seed: u64, shard: (u32, u32), replay: O
         return;
     }
     let mut rng = StdRng::seed_from_u64(seed ^ 0xc15 ^ ((shard.0 as u64) << 40));
-    let n: u64 = if tier == "thorough" { 200_000 } else { 4000 };
+    let n: u64 = if tier == "miri" { 6 } else if tier == "thorough" { 200_000 } else { 4000 };
     let budget = Budget::new(n, if tier == "thorough" { 600.0 } else { 15.0 });
     let mut i = 0;
     while budget.left(i) {
@@ -475,7 +475,7 @@ pub fn run(rep: &mut Report, tier: &str, seed: u64, shard: (u32, u32), replay: O
             n_master_ports: rng.gen_range(1..=3),
             path_trace: rng.gen_bool(0.5) || family == 4,
             real_forwarder: rng.gen_bool(0.7) || family == 3,
-            steps: if family == 3 { 400 } else { rng.gen_range(4..40) },
+            steps: if tier == "miri" { 12 } else if family == 3 { 400 } else { rng.gen_range(4..40) },
             family,
         };
         if i <= 2 {
